@@ -9,7 +9,7 @@ THEOREMS = [
 ]
 MODULE = "LV.Shachain.Props"
 TARGETS = ["theories/Shachain/Props.vo", "theories/Shachain/Exec.vo",
-           "theories/Shachain/Examples.vo"]
+           "theories/Shachain/Examples.vo", "theories/Shachain/GenBridge.vo"]
 WARM = [{"pkg": "shachain", "files": ["shachain/verif_store_test.go"]}] + chan_check.WARM
 IMPORTS = ("From Coq Require Import List NArith.\nImport ListNotations.\n"
            "From LV Require Import Shachain.Exec.\n")
